@@ -14,6 +14,7 @@ import common  # noqa: E402
 from common import Violation, read_gr, run_cmd, write_gr  # noqa: E402
 
 GC = os.path.join(common.NATIVE, "tools", "graph-convert", "graph-convert")
+GCH = os.path.join(common.NATIVE, "tools", "graph-convert", "graph-convert-huge")
 HARNESS = "py:c12b"
 
 INT_TYPES = ["int32", "uint32", "int64", "uint64"]
@@ -30,7 +31,7 @@ line = st.one_of(
     st.tuples(st.just("m"), edge),  # missing weight: must be skipped for weighted types
 )
 case_strategy = st.fixed_dictionaries({
-    "mode": st.sampled_from(["edgelist2gr", "csv2gr", "dimacs", "mtx", "gr-text", "gr-transform", "edgelist2binary"]),
+    "mode": st.sampled_from(["edgelist2gr", "csv2gr", "dimacs", "mtx", "gr-text", "gr-transform", "edgelist2binary", "huge"]),
     "etype": st.sampled_from(TYPES),
     "lines": st.lists(line, min_size=0, max_size=30),
     "crlf": st.booleans(),
@@ -44,6 +45,8 @@ case_strategy = st.fixed_dictionaries({
 
 def finding_key(case, failkey):
     sub = case["mode"]
+    if case["mode"] == "huge" and failkey == "unsorted-inconsistent-file":
+        return "C12/huge/unsorted-inconsistent-file"
     if case["mode"] == "gr-text":
         sub = case["inverse"]
     if case["mode"] == "gr-transform":
@@ -152,6 +155,62 @@ def check_inner(case, work):
     for f in (inp, out):
         if os.path.exists(f):
             os.unlink(f)
+    if mode == "huge":
+        # graph-convert-huge: out-of-core text edge list -> .gr.  Lines "src dst [integer]" (read from its regexes);
+        # the weight column is a 64-bit integer (or 32-bit with -32bitData), 0 when absent.
+        small = etype in ("int32", "uint32", "float32")
+        edges = []
+        rows = []
+        for l in case["lines"]:
+            if l[0] == "e":
+                (s0, d0, w0) = l[1]
+                edges.append((s0, d0, w0))
+                rows.append("%d%s%d%s%d" % (s0, l[2], d0, l[2], w0))
+            elif l[0] == "m":
+                (s0, d0, _) = l[1]
+                edges.append((s0, d0, 0))
+                rows.append("%d %d" % (s0, d0))
+            elif l[1].startswith("#") or l[1].startswith("%"):
+                rows.append(l[1])  # comment lines match none of its patterns
+        n = max([0] + [max(s0, d0) for (s0, d0, _) in edges]) + 1 if edges else 0
+        # two paths: the general one (any edge order, edge data kept) and -edgesSorted -numNodes=N (sources ascending,
+        # no edge data).  The general path is a known finding when listed: then only the sorted path is generated.
+        sorted_path = case["param"] % 2 == 0
+        if not sorted_path and common.excluded("C12/huge/unsorted-inconsistent-file"):
+            common.count_excluded()
+            sorted_path = True
+        if sorted_path:
+            if not edges:
+                return {"mode": mode, "huge_path": "sorted", "edges": 0}, False
+            order = sorted(range(len(edges)), key=lambda i: edges[i][0])  # stable: input order per source is kept
+            edges = [edges[i] for i in order]
+            rows = ["%d %d" % (s0, d0) for (s0, d0, _) in edges]
+        text = "\n".join(rows) + ("\n" if rows else "")
+        open(inp, "w", newline="").write(text)
+        env = dict(os.environ)
+        env["GALOIS_VERIF_TOPO"] = "2"
+        args = ["-edgesSorted", "-numNodes=%d" % n] if sorted_path else (["-32bitData"] if small else [])
+        rc, o, e = run_cmd([GCH] + args + [inp, out], timeout=120, cwd=work, env=env)
+        if rc != 0:
+            raise Violation("tool-failed", "graph-convert-huge %s exited %d: %s" % (" ".join(args), rc, (e + o)[-300:]))
+        labels["huge_path"] = "sorted" if sorted_path else "general"
+        labels["edges"] = min(len(edges), 20)
+        try:
+            nn, adj, size, ver = read_gr(out, "void" if sorted_path else ("uint32" if small else "uint64"))
+            if nn != n:
+                raise Violation("node-count", "graph-convert-huge: %d nodes in output, max id + 1 = %d" % (nn, n))
+            for a in adj:
+                for (d0, _) in a:
+                    if d0 >= nn:
+                        raise Violation("malformed-output", "graph-convert-huge: destination %d in a graph of %d nodes" % (d0, nn))
+            want = adj_from([(s0, d0, None if sorted_path else w0) for (s0, d0, w0) in edges], n, "void" if sorted_path else "uint64")
+            same_multiset(adj, want, "graph-convert-huge")
+        except Violation as v:
+            if not sorted_path:
+                # one root cause (header of the general path does not describe the body): one key
+                raise Violation("unsorted-inconsistent-file", "general path: " + v.msg)
+            raise
+        return labels, len(edges) >= 3
     if mode in ("edgelist2gr", "csv2gr", "edgelist2binary"):
         if mode == "edgelist2binary":
             etype, weighted = "void", False
